@@ -188,7 +188,7 @@ def addressOffset (loads : List Load) (start : Nat) : Option Nat :=
 /-- `get_table_offset(tag)[1]` -/
 def tableOffset (tags : List (Val × Nat)) (loads : List Load) (name : String) : Option Nat :=
   match tagsOf tags name with
-  | ptr :: _ => if ptr ≠ 0 then addressOffset loads ptr else none
+  | ptr :: _ => addressOffset loads ptr          -- `if ptr is not None:` — address 0 is mapped like any other
   | [] => none
 
 inductive DynTable
@@ -251,12 +251,6 @@ def recipeGet (table : String) (ty : Int) : R (Option Recipe) :=
     | some (_, b, a, c) => .ok (some ⟨b, a, c⟩)
     | none => .ok none
 
-/-- `ENUM_RELOC_TYPE_MIPS['R_MIPS_64']` -/
-def rMips64 : R Int :=
-  match genEnumValue "ENUM_RELOC_TYPE_MIPS" "R_MIPS_64" with
-  | some v => .ok v
-  | none => .error .keyError
-
 /-- the `if/elif` chain of `_do_apply_relocation` choosing the recipe (after the symbol check) -/
 def chooseRecipe (arch : String) (cls : Nat) (reloc : Val) : R (Option Recipe) := do
   let rela := entryIsRela reloc
@@ -268,11 +262,11 @@ def chooseRecipe (arch : String) (cls : Nat) (reloc : Val) : R (Option Recipe) :
     if !rela then .error .elfRelocError
     recipeGet "_RELOCATION_RECIPES_X64" ty
   else if arch = "MIPS" then
-    if rela then
-      if cls = 64 && ty == (← rMips64) then
-        if (← reloc.getInt "r_type2") ≠ 0 || (← reloc.getInt "r_type3") ≠ 0 || (← reloc.getInt "r_ssym") ≠ 0 then
-          .error .elfRelocError
-      recipeGet "_RELOCATION_RECIPES_MIPS_RELA" ty
+    -- only the ELF64 MIPS r_info packs three types and a second symbol
+    if cls = 64 then
+      if (← reloc.getInt "r_type2") ≠ 0 || (← reloc.getInt "r_type3") ≠ 0 || (← reloc.getInt "r_ssym") ≠ 0 then
+        .error .elfRelocError
+    if rela then recipeGet "_RELOCATION_RECIPES_MIPS_RELA" ty
     else recipeGet "_RELOCATION_RECIPES_MIPS_REL" ty
   else if arch = "ARM" then
     if rela then .error .elfRelocError
@@ -323,6 +317,9 @@ def applyWithSym (le : Bool) (cls : Nat) (arch : String) (stream : Bytes) (reloc
   match recipe with
   | none => .error .elfRelocError
   | some r =>
+    -- `if recipe.calc_func is _reloc_calc_identity: return` (R_*_NONE: no field; calc functions are named by the
+    -- formula they compute, tools/gen/calcfns.py)
+    if r.calcName = "reloc_calc_identity" then return stream
     let off ← reloc.getNat "r_offset"
     applyRecipe le stream r symValue off (reloc.getInt "r_addend")
 
@@ -383,7 +380,11 @@ def readDwarfSection (env : Env) (S : ElfStructs) (le : Bool) (cls : Nat) (arch 
       if phantom then .error .elfParseError
       else
         match symtabOf h.shLink with
-        | none => .error .attributeError
+        | none =>
+          -- `symtab.num_symbols()` on a section that is not a symbol table, at the first relocation (if there is one)
+          if (← numRelocations t) = 0 then return stream
+          let _ ← getRelocation env data t 0
+          .error .attributeError
         | some st => applySectionRelocations env S le cls arch data st t stream
   else return stream
 
